@@ -358,9 +358,33 @@ func checkC15(p *Prog, r *Report) {
 			}
 			path := syncPathTo(p, he, publish)
 			r.Check("R5", "handler:"+shortType(ht), path == nil, p.InstrPos(site), "synchronous path back to Publish: "+strings.Join(path, " -> "))
+			// R9: "core handlers have finished before Publish returns" needs the handler to do its work itself
+			var spawned []string
+			p.InScope(he, func() {
+				for _, body := range p.ScopeFns(he) {
+					for _, fb := range withAnon(body) {
+						for _, b := range fb.Blocks {
+							for _, ins := range b.Instrs {
+								if g, isGo := ins.(*ssa.Go); isGo {
+									spawned = append(spawned, p.InstrPos(g))
+								}
+							}
+						}
+					}
+				}
+			})
+			r.Check("R9", "handler:"+shortType(ht)+"|synchronous", len(spawned) == 0, p.Pos(he.Pos()), fmt.Sprintf("the core handler does its work before it returns (no go statement in HandleEvent or its helpers): %v", spawned))
+			// R10: the registration itself does not depend on how many peers are known
+			var conds []string
+			for _, g := range Guards(site.Block()) {
+				conds = append(conds, Path(g.Cond))
+			}
+			r.Check("R10", "handler:"+shortType(ht)+"|registered-unconditionally", len(conds) == 0, p.InstrPos(site), fmt.Sprintf("the core-level subscription is reached on every path of %s (subscribe is idempotent): conditions %v", FnName(fn), conds))
 		})
 	}
 	r.Floor("R5", "core-level subscriptions", nCoreSubs, 1)
+	r.Rule("R9", "a handler subscribed at core level does its work before HandleEvent returns: no go statement in it or its helpers (otherwise 'core handlers have finished before Publish returns and before application handlers run' is void)")
+	r.Rule("R10", "the stack subscribes its core handler on every path of the function that sets up a peer: the subscription is not conditional (two peers set up concurrently, or a peer registered through the public API, would otherwise leave the stack without its core handler)")
 
 	r.Rule("R8", "the stack's own core handler stays subscribed while any peer is connected: RemoveRemoteDevice unsubscribes it only under 'the remote-device map is empty', the size being read after the removal in the same critical section")
 	coreUnsubscribeRule(p, ls, r, "R8")
